@@ -200,6 +200,50 @@ theorem firstKw_isSome {s : Str} : ∀ {ks : List Str} {k : Str}, k ∈ ks → s
       · simp_all
       · exact firstKw_isSome h hs
 
+theorem firstKw_some {s : Str} : ∀ {ks : List Str} {k : Str}, firstKw s ks = some k → k ∈ ks ∧ startsWith s k = true
+  | [], _, h => by simp [firstKw] at h
+  | k0 :: ks, k, h => by
+    simp only [firstKw] at h
+    split at h
+    · rename_i hs
+      cases h
+      exact ⟨by simp, hs⟩
+    · obtain ⟨h1, h2⟩ := firstKw_some h
+      exact ⟨by simp [h1], h2⟩
+
+/-- a header that is not in `_re_compound` starts with `def`, `class`, `else` or `finally` - the headers after
+    which Python allows no further clause -/
+theorem header_not_compound {h : Str} (hh : HeaderOk h = true) (hc : isCompound h = false) :
+    ∃ k, k ∈ ["def".toList, "class".toList, "else".toList, "finally".toList] ∧ startsWith (lskip h) k = true := by
+  simp only [HeaderOk, Bool.and_eq_true] at hh
+  have hr : reCompound h = none := by simpa [isCompound] using hc
+  have ho := hh.2
+  unfold opens at ho
+  split at ho
+  · rw [hr] at ho
+    simp only at ho
+    split at ho
+    · rename_i hk
+      simp only [reIndentKeyword] at hk
+      obtain ⟨k, hk'⟩ := Option.isSome_iff_exists.mp hk
+      obtain ⟨hm, hs⟩ := firstKw_some hk'
+      simp only [indentKws, List.mem_cons, List.not_mem_nil, or_false] at hm
+      have notc : ∀ k', k' ∈ compoundKws → startsWith (lskip h) k' = true → False := by
+        intro k' hk1 hk2
+        have := firstKw_isSome hk1 hk2
+        simp only [reCompound] at hr
+        rw [hr] at this
+        cases this
+      rcases hm with rfl | rfl | rfl | rfl | rfl | rfl
+      · exact ⟨_, by simp, hs⟩
+      · exact ⟨_, by simp, hs⟩
+      · exact ⟨_, by simp, hs⟩
+      · exact absurd hs (fun h' => notc _ (by decide) h')
+      · exact absurd hs (fun h' => notc _ (by decide) h')
+      · exact ⟨_, by simp, hs⟩
+    · cases ho
+  · cases ho
+
 theorem fragKw_facts {kw : Str} (h : kw ∈ fragKws) :
     (kw ∈ compoundKws ∨ kw ∈ indentKws) ∧ ∃ c y, kw = c :: y ∧ isSpace c = false ∧ c ≠ '#' := by
   simp only [fragKws, List.mem_cons, List.not_mem_nil, or_false] at h
